@@ -113,9 +113,9 @@ type CSVLogConfig struct {
 }
 
 // CSVLog generates CSV export of the log
-func CSVLog(logStream io.Reader, c CSVLogConfig) error {
+func CSVLog(logStream io.Reader, c CSVLogConfig) (err error) {
 	r := NewCSVReporter(c.ReporterConfig)
-	defer r.Flush()
+	defer utils.FlushOnExit(r, &err)
 	f := filter.GetIntervalNodeFilter(c.FilterConfig)
 	return utils.WalkNodesInStream(logStream, c.DateFormat, c.ParserConfig, f, r)
 }
@@ -126,9 +126,9 @@ type CSVDatabaseConfig struct {
 }
 
 // CSVDatabase generates CSV export of the database
-func CSVDatabase(dbStream io.Reader, cdc CSVDatabaseConfig) error {
+func CSVDatabase(dbStream io.Reader, cdc CSVDatabaseConfig) (err error) {
 	r := NewCSVDatabaseReporter(cdc.ReporterConfig)
-	defer r.Flush()
+	defer utils.FlushOnExit(r, &err)
 
 	return parser.ParseStreamCallback(dbStream, cdc.ParserConfig, func(n *shared.ParserNode, err error) (stop bool, cbError error) {
 		if err != nil {
